@@ -113,16 +113,19 @@ type Report struct {
 	Rule        string
 	Assumptions []string
 
-	Evaluations   int
-	States        map[string]bool // distinct canonical cases
-	Nontrivial    map[string]bool // distinct nontrivial cases
-	Transitions   int
-	TracesImpl    int
-	Outcomes      map[string]int
-	Samples       []any
-	Bounds        map[string]any
-	Exhaustive    bool
-	Extra         map[string]any
+	Evaluations int
+	States      map[string]bool // distinct canonical cases
+	Nontrivial  map[string]bool // distinct nontrivial cases
+	Transitions int
+	TracesImpl  int
+	Outcomes    map[string]int
+	Samples     []any
+	Bounds      map[string]any
+	Exhaustive  bool
+	Extra       map[string]any
+	// StatesN / TransitionsN, when set, replace the counts derived from States / Transitions
+	// (checks whose state space lives in another process: the CRUD BFS of C05).
+	StatesN       int
 	failures      map[string]*Failure
 	failCount     map[string]int
 	InternalError []string
@@ -242,7 +245,7 @@ func (r *Report) Finish() int {
 		fmt.Printf("  clause=%s cost=%d count=%d features=%v\n  %s\n", f.Clause, f.Cost, r.failCount[f.key()], f.Features, firstLines(f.Detail, 6))
 	}
 	cov := map[string]any{
-		"states":                        max1(len(r.States)),
+		"states":                        max1(maxInt(len(r.States), r.StatesN)),
 		"transitions":                   max1(r.Transitions),
 		"traces_validated_against_impl": r.TracesImpl,
 		"evaluations":                   r.Evaluations,
@@ -293,6 +296,13 @@ func (r *Report) Finish() int {
 		return 1
 	}
 	return 0
+}
+
+func maxInt(a, b int) int {
+	if a > b {
+		return a
+	}
+	return b
 }
 
 func max1(n int) int {
